@@ -202,7 +202,8 @@ register(
     "Structural clauses of order independence: (R4a) a vector filled in DashMap / hash-map iteration order is sorted "
     "before it is returned, (R4b) first-match exits from such iterations are reviewed for uniqueness of the match, "
     "(R4c) order-sensitive selections over the per-name definition vector (registration order = scan schedule) are "
-    "pinned to one file. Ties under non-total sort keys and other channels of nondeterminism are not decided.",
+    "pinned to one file, (R4h) no order-dependent pick (find / next / take / an early-exit loop with a value) from the "
+    "iteration of a hash container. Ties under non-total sort keys and other channels of nondeterminism are not decided.",
     [r4.r4a_unordered, r4.r4b_unordered_pick, r5.r4c_order_sensitive, r2.r2a_atomic_ops, r10.r10f_no_short_circuit, r1.r1f_no_try_lock, r4.r4d_sort_keys_are_projections, r3d.r3d_memo_context, r10.r10i_no_textual_path_prefix, r4.r4e_local_memo_keys, _r5d_flags, r4.r4f_no_prefix_adaptors, r4.r4h_no_pick_in_hash_order],
 )
 
